@@ -247,6 +247,26 @@ partial def baseKinds (A : Op GRat) : List String :=
   | .eye .. => [] | .scalar .. => [] | .diag .. => [] | .tri .. => [] | .perm .. => []
   | c => [kindName c]
 
+/-- the operators the rule recursion hands to a base rule (same traversal as `baseKinds`) -/
+partial def baseLeaves (A : Op GRat) : List (Op GRat) :=
+  match A.core with
+  | .prod Ms => if Ms.all (fun M => M.rows == M.cols) then Ms.flatMap baseLeaves else [A]
+  | .kron Ms => Ms.flatMap baseLeaves
+  | .bdiag Ms _ => Ms.flatMap baseLeaves
+  | .eye .. => [] | .scalar .. => [] | .diag .. => [] | .tri .. => [] | .perm .. => []
+  | _ => [A]
+
+/-- what the Krylov kernel computed for one base leaf, reported so that the harness can RE-CHECK the arithmetic of
+`trlogK` independently (exact Fractions in Python): the leaf's matrix, the power sums `t_0 … t_n` of the exact Krylov
+model (`t_k` must be `tr A^k`) and the determinant reconstructed from them by Newton's identities -/
+def krylovLeafJson (A : Op GRat) : String :=
+  let n := A.rows
+  let Da := KrylovExact.toRows n (forceV n n A.den.f).f
+  let (ts, det) := match KrylovExact.powerSums n Da with
+    | none => ("null", "null")
+    | some t => ("[" ++ ",".intercalate (t.toList.map showZ) ++ "]", showZ (KrylovExact.detFromPowerSums n t))
+  "{" ++ s!"\"n\":{n},\"mat\":{showMat n n (forceV n n A.den.f).f},\"t\":{ts},\"det\":{det}" ++ "}"
+
 def handle (j : Json) : E String := do
   let id := (j.getObjVal? "id").toOption.getD .null
   let A ← jOp ((j.getObjVal? "op").toOption.getD .null)
@@ -260,9 +280,13 @@ def handle (j : Json) : E String := do
     | .ok d => "{\"ok\":" ++ showZ d ++ "}"
     | .error e => "{\"err\":\"" ++ e ++ "\"}"
   let spec := if A.rows == A.cols then showZ (detGE n (forceV n n A.den.f).f) else "null"
+  let kleaves : List String :=
+    if (la == .lanczos || la == .arnoldi) && A.rows == A.cols && A.wf then
+      ((baseLeaves A).filter (fun L => L.rows == L.cols && L.rows ≤ 16)).map krylovLeafJson
+    else []
   let pre := (if A.triTrue then [] else ["tri-not-triangular"]) ++
     (if A.sqMembers then [] else ["nonsquare-member"]) ++
     (if A.dupSlice then ["sliced-repeated-index"] else [])
-  pure ("{" ++ s!"\"id\":{id.compress},\"rows\":{A.rows},\"cols\":{A.cols},\"dtype\":\"{A.dtype.toString}\",\"wf\":{A.wf},\"psd\":{A.isa .psd},\"pre\":{showStrs pre},\"base\":{showStrs (baseKinds A)},\"code\":{code},\"code_lenient\":{lenient},\"spec\":{spec}" ++ "}")
+  pure ("{" ++ s!"\"id\":{id.compress},\"rows\":{A.rows},\"cols\":{A.cols},\"dtype\":\"{A.dtype.toString}\",\"wf\":{A.wf},\"psd\":{A.isa .psd},\"pre\":{showStrs pre},\"base\":{showStrs (baseKinds A)},\"code\":{code},\"code_lenient\":{lenient},\"spec\":{spec},\"krylov_leaves\":[{",".intercalate kleaves}]" ++ "}")
 
 def main : IO Unit := driverMain handle
